@@ -4,17 +4,20 @@
 //   OK final=<...> TRACE <event tokens>
 //   DEADLOCK why=<..> STATE <component state printed by the on_deadlock hook> CHOICES <c,c,..> TRACE <event tokens>
 //   BADCASE <reason>
+//   HANG case_index=<i> no_progress_for=<s>s   (watchdog of the parent: the child was killed)
 //   SKIPPED <reason>      (only after three cases ran into the step bound: the check has its violations by then)
 //
 // Case file, one case per line (blank-separated):
 //   sem <initial> <strategy> <spurious> <seed> [choices=c,c,..] [ctor=K] | <call> <call> .. | <call> .. | ..   (one "|" block per thread)
 //        call = S (signal())  SN,<n> (signal(n))  W,<delta>,<slack> (wait(delta, slack))  W1,<delta> (wait(delta))  W0 (wait())
+//               V (value(): racing observer, noted as US:val)
 //               T,<delta>,<slack> (try_acquire(delta, slack))  T1,<delta> (try_acquire(delta))  T0 (try_acquire())
 //        ctor: 0 Semaphore(initial)   1 Semaphore() (initial must be 0)   2 move-constructed from Semaphore(initial)
 //              3 Semaphore(7), then move-assigned from Semaphore(initial)
 //   bm|bs <ymode> <strategy> <spurious> <seed> [choices=..] [sil=<bits>] [stepq=1] | <gens thread 1> <gens thread 2> ..   (n = number of threads)
 //        ymode: 0 wait   1 wait_yield   2 mixed: worker t (0-based) crosses generation g with wait_yield iff (t + g + seed) odd
 //        sil: bit g = 1: generation g is crossed WITHOUT a lambda (wait() / wait_yield(), default NoOperation)
+//        maxsteps=<k>: step bound of the scheduler for this case (default 50000)
 //        stepq: spin barrier only: every thread calls the accessor step() after each crossing (an atomic load event)
 // Logical thread 0 is the main thread (spawns and joins only); workers are 1..n in spawn order.
 // Every case runs in a forked child (batches: a child continues with the following cases until one deadlocks,
@@ -29,7 +32,10 @@
 #include <type_traits>
 #include <vector>
 
+#include <poll.h>
+#include <signal.h>
 #include <sys/mman.h>
+#include <time.h>
 #include <sys/wait.h>
 #include <unistd.h>
 
@@ -45,7 +51,7 @@ struct Case {
     int yield = 0;              // barriers
     int strategy = 0; bool spurious = false; unsigned long long seed = 0;
     std::vector<int> choices; bool have_choices = false;
-    int ctor = 0; std::string sil; int stepq = 0;
+    int ctor = 0; std::string sil; int stepq = 0; long maxsteps = 50000;
     std::vector<std::vector<Call>> progs;   // sem
     std::vector<int> gens;                  // barriers
     std::string bad;
@@ -76,6 +82,7 @@ static Case parse(const std::string& line) {
         else if (toks[i].rfind("ctor=", 0) == 0) c.ctor = atoi(toks[i].c_str() + 5);
         else if (toks[i].rfind("sil=", 0) == 0) c.sil = toks[i].substr(4);
         else if (toks[i].rfind("stepq=", 0) == 0) c.stepq = atoi(toks[i].c_str() + 6);
+        else if (toks[i].rfind("maxsteps=", 0) == 0) c.maxsteps = atol(toks[i].c_str() + 9);
         else { c.bad = "header " + toks[i]; return c; }
     }
     if (!c.bad.empty()) return c;
@@ -92,6 +99,7 @@ static Case parse(const std::string& line) {
             else if (p[0] == "T1" && p.size() == 2) { k.kind = 'T'; k.form = 1; k.a = strtoull(p[1].c_str(), nullptr, 10); }
             else if (p[0] == "W0" && p.size() == 1) { k.kind = 'W'; k.form = 0; }
             else if (p[0] == "T0" && p.size() == 1) { k.kind = 'T'; k.form = 0; }
+            else if (p[0] == "V" && p.size() == 1) { k.kind = 'V'; }
             else { c.bad = "call " + toks[i]; return c; }
             c.progs.back().push_back(k);
         }
@@ -117,7 +125,7 @@ static void run_sem(const Case& c) {
     tlx::Semaphore& sem = c.ctor == 0 ? plain : c.ctor == 1 ? dflt : c.ctor == 2 ? moved : target;
     size_t n = c.progs.size();
     for (size_t t = 0; t <= n; ++t) { g_pos[t] = 0; g_inside[t] = 0; }
-    s.begin(c.seed, c.strategy, c.spurious, 50000);
+    s.begin(c.seed, c.strategy, c.spurious, c.maxsteps);
     if (c.have_choices) s.set_replay(c.choices);
     s.on_deadlock = [&]() {
         printf("STATE sem value=%zu", sem.value());
@@ -138,9 +146,10 @@ static void run_sem(const Case& c) {
                     case 'W': r = p[k].form == 2 ? sem.wait(p[k].a, p[k].b) : p[k].form == 1 ? sem.wait(p[k].a) : sem.wait(); break;
                     case 'T': r = (p[k].form == 2 ? sem.try_acquire(p[k].a, p[k].b) : p[k].form == 1 ? sem.try_acquire(p[k].a)
                                                   : sem.try_acquire()) ? 1 : 0; break;
+                    case 'V': r = sem.value(); break;      // racing observer (no scheduling point)
                     }
                     g_inside[t + 1] = 0; g_pos[t + 1] = static_cast<int>(k + 1);
-                    s.note("ret", static_cast<long long>(k), static_cast<long long>(r));
+                    s.note(p[k].kind == 'V' ? "val" : "ret", static_cast<long long>(k), static_cast<long long>(r));
                 }
             });
         for (auto& x : th) x.join();
@@ -156,7 +165,7 @@ static void run_bar(const Case& c) {
     size_t n = c.gens.size();
     Barrier bar(n);
     for (size_t t = 0; t <= n; ++t) { g_pos[t] = 0; g_inside[t] = 0; }
-    s.begin(c.seed, c.strategy, c.spurious, 50000);
+    s.begin(c.seed, c.strategy, c.spurious, c.maxsteps);
     if (c.have_choices) s.set_replay(c.choices);
     s.on_deadlock = [&]() {
         // ThreadBarrierSpin::step() is an atomic load = a shim scheduling point: not callable from inside the hook
@@ -208,9 +217,12 @@ int main(int argc, char** argv) {
     size_t* done = static_cast<size_t*>(mmap(nullptr, sizeof(size_t), PROT_READ | PROT_WRITE, MAP_SHARED | MAP_ANONYMOUS, -1, 0));
     if (done == MAP_FAILED) { perror("mmap"); return 2; }
     *done = 0;
+    int hangs = 0;
+    long hang_secs = getenv("VERIF_C11_HANG_SECS") ? atol(getenv("VERIF_C11_HANG_SECS")) : 10;
     int livelocks = 0;   // cases that hit the step bound; after 3 of them the remaining cases are skipped (each costs seconds)
     while (*done < cases.size()) {
         if (livelocks >= 3) { printf("SKIPPED after_3_step_bound_exits\n"); *done += 1; continue; }
+        if (hangs >= 3) { printf("SKIPPED after_3_hangs\n"); *done += 1; continue; }
         int fd[2]; if (pipe(fd) != 0) { perror("pipe"); return 2; }
         fflush(stdout);
         pid_t pid = fork();
@@ -225,10 +237,30 @@ int main(int argc, char** argv) {
         }
         close(fd[1]);
         // read the child's output; a DEADLOCK block (several lines, ends with the child's exit) becomes one line
+        // Watchdog: if the child neither prints nor finishes a case for hang_secs seconds it hangs (e.g. a component
+        // blocked outside the scheduler): kill it, report the current case as HANG and go on with the next one.
         std::string buf; char tmp[65536]; ssize_t r;
-        while ((r = read(fd[0], tmp, sizeof tmp)) > 0) buf.append(tmp, static_cast<size_t>(r));
+        bool hung = false; size_t seen_done = *done; time_t last = time(nullptr);
+        for (;;) {
+            struct pollfd pf; pf.fd = fd[0]; pf.events = POLLIN; pf.revents = 0;
+            int pr = poll(&pf, 1, 1000);
+            if (pr > 0) {
+                r = read(fd[0], tmp, sizeof tmp);
+                if (r > 0) { buf.append(tmp, static_cast<size_t>(r)); last = time(nullptr); continue; }
+                if (r == 0) break;
+            }
+            if (*done != seen_done) { seen_done = *done; last = time(nullptr); }
+            if (time(nullptr) - last >= hang_secs) { hung = true; kill(pid, SIGKILL); break; }
+        }
         close(fd[0]);
         int st = 0; waitpid(pid, &st, 0);
+        if (hung) {
+            size_t nl = buf.rfind('\n');
+            if (nl != std::string::npos) fputs(buf.substr(0, nl + 1).c_str(), stdout);
+            printf("HANG case_index=%zu no_progress_for=%lds\n", *done, hang_secs);
+            *done += 1; ++hangs; fflush(stdout);
+            continue;
+        }
         size_t dl = buf.find("DEADLOCK ");
         while (dl != std::string::npos && dl != 0 && buf[dl - 1] != '\n') dl = buf.find("DEADLOCK ", dl + 1);
         std::string normal = dl == std::string::npos ? buf : buf.substr(0, dl);
@@ -244,7 +276,8 @@ int main(int argc, char** argv) {
                 else if (l.rfind("STATE ", 0) == 0) state = l.substr(6);
             }
             for (auto& ch : why) if (ch == ' ') ch = '_';
-            if (why.rfind("step_bound", 0) == 0) ++livelocks;
+            // a case that announces its own step bound (maxsteps=) expects to run into it (spin barrier left by a participant)
+            if (why.rfind("step_bound", 0) == 0 && cases[*done].find(" maxsteps=") == std::string::npos) ++livelocks;
             printf("DEADLOCK why=%s STATE %s CHOICES %s TRACE %s\n", why.c_str(), state.c_str(), choices.c_str(), trace.c_str());
             *done += 1;   // the deadlocked case is finished
         } else if (!(WIFEXITED(st) && WEXITSTATUS(st) == 0)) {
